@@ -32,9 +32,9 @@ func init() {
 	addProp(&propSpec{
 		ID: "C08", Engine: "sync", Level: "exploration",
 		Subs: []subCheck{
-			{Name: "C08A", QuickRuns: 60000, QuickMs: 25000, ThoroughRuns: 3000000, ThoroughMs: 300000},
-			{Name: "C08S", QuickRuns: 60000, QuickMs: 15000, ThoroughRuns: 3000000, ThoroughMs: 200000},
-			{Name: "C08B", QuickRuns: 200000, QuickMs: 25000, ThoroughRuns: 20000000, ThoroughMs: 300000},
+			{Name: "C08A", QuickRuns: 1000000000, QuickMs: 20000, ThoroughRuns: 1000000000, ThoroughMs: 480000},
+			{Name: "C08S", QuickRuns: 1000000000, QuickMs: 20000, ThoroughRuns: 1000000000, ThoroughMs: 480000},
+			{Name: "C08B", QuickRuns: 1000000000, QuickMs: 20000, ThoroughRuns: 1000000000, ThoroughMs: 480000},
 		},
 		Rule: "one evaluation = one simulated run: 2-16 tasks executing seeded programs of Acquire/TryToAcquire/critical-section/Release/Release-while-free under a seeded one-at-a-time scheduler (mode A: compiled code, preemption at the yieldFn seam, at inserted statement yields of spinlock.go and inside critical sections; mode B: the assembly source interpreted, preemption between any two instructions). Non-trivial = at least one contended acquisition (a task spun or a try-acquire failed while another task held the lock) and at least two tasks completed a critical section; distinct = distinct hash of (task count, context-switch sequence, operation outcomes).",
 		Assume: []string{"sequentially consistent interleavings only: true multi-core parallelism, x86-TSO store buffers and cache effects are not simulated; locked XCHG is assumed to give acquire/release ordering", "mode B interprets the instruction subset used by spinlock_amd64.s; an unknown instruction makes the check exit 2, never pass"},
@@ -54,21 +54,21 @@ func init() {
 	addEngine(&engineSpec{Name: "pmm", PkgDir: "mm/pmm", Files: pmmFiles, Anchors: pmmAnchors, Real: pmmReal, Stub: pmmStub})
 	addProp(&propSpec{
 		ID: "C01", Engine: "pmm", Level: "exploration",
-		Subs: []subCheck{{Name: "C01", QuickRuns: 60000, QuickMs: 30000, ThoroughRuns: 5000000, ThoroughMs: 600000}},
+		Subs: []subCheck{{Name: "C01", QuickRuns: 1000000000, QuickMs: 20000, ThoroughRuns: 1000000000, ThoroughMs: 480000}},
 		Rule: "one evaluation = one simulated boot (generated memory map of 1-8 regions with word-boundary frame counts, unaligned edges, sub-page regions, non-available types; kernel placement at start/middle/end/covering; 0-3 extra early allocations per mapping) followed by a seeded history of AllocFrame/FreeFrame calls by 1-8 callers including drain-to-exhaustion phases; every returned frame is checked against the reference sets. Non-trivial = Init succeeded, >=3 allocations and >=1 free; distinct = hash of (memory map, kernel placement, operation counts).",
 		Assume: []string{"callers free only frames they hold (the allocator does not know owners)", "sequential histories here; concurrent callers are C09"},
 		Required: []string{"pmm.reached_oom", "pmm.drain_phase", "pmm.extra_early_alloc_in_map"},
 	})
 	addProp(&propSpec{
 		ID: "C02", Engine: "pmm", Level: "exploration",
-		Subs: []subCheck{{Name: "C02", QuickRuns: 100000, QuickMs: 25000, ThoroughRuns: 10000000, ThoroughMs: 400000}},
+		Subs: []subCheck{{Name: "C02", QuickRuns: 1000000000, QuickMs: 20000, ThoroughRuns: 1000000000, ThoroughMs: 480000}},
 		Rule: "one evaluation = one generated memory map + kernel placement, early allocations until out-of-memory and 1-3 calls beyond, each checked (inside available RAM, outside kernel, strictly ascending, OOM contract), then a replay of n allocations from a reset state compared with the original sequence. Non-trivial = at least 2 frames were returned; distinct = hash of (memory map, kernel placement, number of frames).",
 		Assume: []string{"memory maps are sorted and non-overlapping, the kernel image lies inside one available region with a page-aligned start (the property's quantifier)"},
 		Required: []string{"c02.reached_oom", "c02.replay_checked"},
 	})
 	addProp(&propSpec{
 		ID: "C03", Engine: "pmm", Level: "exploration",
-		Subs: []subCheck{{Name: "C03", QuickRuns: 60000, QuickMs: 30000, ThoroughRuns: 5000000, ThoroughMs: 600000}},
+		Subs: []subCheck{{Name: "C03", QuickRuns: 1000000000, QuickMs: 20000, ThoroughRuns: 1000000000, ThoroughMs: 480000}},
 		Rule: "one evaluation = one simulated boot as in C01 (plus injected reservation/mapping failures and naturally occurring early-boot OOM) followed by a seeded history of allocate / free-own / bad-free (never-allocated, double, out-of-pool, reserved-region, beyond-RAM, invalid frame) calls, counters checked after every call, final drain must yield exactly the usable set. Non-trivial = Init succeeded, >=3 allocations and >=1 free or rejected free; distinct = hash of (memory map, kernel placement, operation counts).",
 		Assume: []string{"frees of kernel-image or early-boot frames are outside the statement and never generated"},
 		Required: []string{"c03.full_drain_checked", "c03.bad_free.double-free", "c03.bad_free.out-of-pool", "c03.init_oom", "c03.init_injected_failure_propagated", "c03.printed_stats_checked"},
@@ -86,7 +86,7 @@ func init() {
 	})
 	addProp(&propSpec{
 		ID: "C09", Engine: "pmmc", Level: "exploration",
-		Subs: []subCheck{{Name: "C09", QuickRuns: 40000, QuickMs: 40000, ThoroughRuns: 4000000, ThoroughMs: 900000}},
+		Subs: []subCheck{{Name: "C09", QuickRuns: 1000000000, QuickMs: 20000, ThoroughRuns: 1000000000, ThoroughMs: 480000}},
 		Rule: "one evaluation = one simulated boot with small pools followed by a concurrent phase of 2-16 tasks (mixed alloc/free-own/free-unmanaged, or a free storm where frames handed out beforehand are freed concurrently and freed a second time) under a seeded one-at-a-time scheduler that can preempt before every statement of the allocator. Checked during the run (ownership exclusivity, error contracts, exact blocks-forever detection), at quiescence (lock free, reserved/free totals, per-pool bitmap population, drain returns exactly the unheld usable frames) and over the history (linearizability against the frame-set model: inline Wing-Gong search on every run, porcupine on a sample). Non-trivial = at least two allocator calls overlapped and at least one contended lock acquisition; distinct = hash of (memory map, context-switch sequence, history length).",
 		Assume:    []string{"sequentially consistent interleavings at statement granularity; true parallelism and the hardware memory model are not simulated", "callers free only frames they hold; ownership ends when FreeFrame is called"},
 		Required:  []string{"c09.contended_acquire", "c09.preempt_point_inside_critical_section", "c09.oom_under_contention", "c09.double_free_under_contention", "c09.unmanaged_free_under_contention", "c09.free_storm_run", "c09.inline_linearizability_ok"},
@@ -109,8 +109,8 @@ func init() {
 	addProp(&propSpec{
 		ID: "C04", Engine: "vmm", Level: "fault_enumeration",
 		Subs: []subCheck{
-			{Name: "C04", QuickRuns: 30000, QuickMs: 40000, ThoroughRuns: 3000000, ThoroughMs: 700000},
-			{Name: "C04F", QuickRuns: 6000, QuickMs: 30000, ThoroughRuns: 600000, ThoroughMs: 500000},
+			{Name: "C04", QuickRuns: 1000000000, QuickMs: 20000, ThoroughRuns: 1000000000, ThoroughMs: 480000},
+			{Name: "C04F", QuickRuns: 1000000000, QuickMs: 20000, ThoroughRuns: 1000000000, ThoroughMs: 480000},
 		},
 		Rule: "C04: one evaluation = one seeded history (up to 40 operations: Map, Unmap, Translate, MapRegion, IdentityMapRegion, MapTemporary, pdt.Map/Unmap on active and inactive spaces, Activate, new address spaces through the real pdt.Init, planted huge-page entries) over a pool of pages built to share or not share every table level, with seeded allocation/temporary-mapping failures; after every operation an independent walker compares every present leaf of every address space with the page->entry model, checks new levels, TLB invalidations, bit-for-bit preservation of the active space for inactive-space operations and Translate. C04F: a short fault-free history is executed, then re-executed once per (operation j, allocation k) failing exactly that allocation (systematic fault enumeration). Non-trivial = >= 4 operations and at least one mapping established or failure injected; distinct = hash of the operation sequence.",
 		Assume:   []string{"ideal MMU: no stale TLB entries, no paging-structure caches (the TLB is an oracle input: which pages were invalidated)", "the data path of temporary mappings is shimmed (identity page of the frame)", "the arithmetic computing the next table's virtual address from the entry's virtual address is not exercised (nextAddrFn ignores its argument)"},
@@ -118,21 +118,21 @@ func init() {
 	})
 	addProp(&propSpec{
 		ID: "C07", Engine: "vmm", Level: "exploration",
-		Subs: []subCheck{{Name: "C07", QuickRuns: 60000, QuickMs: 30000, ThoroughRuns: 6000000, ThoroughMs: 500000}},
+		Subs: []subCheck{{Name: "C07", QuickRuns: 1000000000, QuickMs: 20000, ThoroughRuns: 1000000000, ThoroughMs: 480000}},
 		Rule: "one evaluation = one seeded history (up to 60 requests) of EarlyReserveRegion / MapRegion / IdentityMapRegion from five simulated boot-time subsystems, with sizes 0, 1, page+-1, many pages, everything-left, left+1, within a page of 2^64, and a large first reservation that brings the cursor close to exhaustion; the map seam records every (page, frame, flags) call and fails at a seeded call. Every grant is checked against all earlier grants; every refusal must leave the cursor where it was. Non-trivial = at least 3 requests; distinct = hash of (final cursor, request count, refusals).",
 		Assume:   []string{"the map seam is a recorder here; region mapping through the real Map on the simulated MMU is part of C04", "a fitting request that is refused is counted (probe) but not reported: the statement only constrains successful reservations and non-fitting requests"},
 		Required: []string{"c07.reserved", "c07.refused_not_fitting", "c07.mapregion_refused", "c07.region_checked", "c07.map_fail_propagated", "c07.size_near_2^64"},
 	})
 	addProp(&propSpec{
 		ID: "C05", Engine: "vmm", Level: "exploration",
-		Subs: []subCheck{{Name: "C05", QuickRuns: 30000, QuickMs: 30000, ThoroughRuns: 3000000, ThoroughMs: 500000}},
+		Subs: []subCheck{{Name: "C05", QuickRuns: 1000000000, QuickMs: 20000, ThoroughRuns: 1000000000, ThoroughMs: 480000}},
 		Rule: "one evaluation = one simulated boot stage: 0-6 early reservations made through the real EarlyReserveRegion and mapped with the real Map in the boot space, a generated ELF-sections tag (0-12 sections: sizes 1 byte to many pages, aligned or not, ending exactly on a page boundary or not, every W/A/X combination, sections below the kernel offset, empty and non-allocated sections) decoded by the real multiboot.VisitElfSections, then the real vmm.Init with optional allocation / temporary-mapping failure; afterwards ALL present leaves of the activated root are enumerated by an independent walker and must be exactly the section pages (right frame, W, X, never user) plus the reserved pages (same frame as in the boot space). Non-trivial = at least two section pages expected; distinct = hash of (sections, number of reserved pages).",
 		Assume:   []string{"no two sections share a page (as the linker script lays them out)", "every early reservation was mapped before this stage (what the PMM does); reserved-but-unmapped pages are outside the statement", "flags of copied reservation pages are not compared (the statement speaks of their translations)"},
 		Required: []string{"c05.sections_mapped", "c05.reservations_copied", "c05.unaligned_section", "c05.section_below_offset_ignored", "c05.init_failed_by_injection"},
 	})
 	addProp(&propSpec{
 		ID: "C06", Engine: "vmm", Level: "fault_enumeration",
-		Subs: []subCheck{{Name: "C06", QuickRuns: 30000, QuickMs: 40000, ThoroughRuns: 3000000, ThoroughMs: 600000}},
+		Subs: []subCheck{{Name: "C06", QuickRuns: 1000000000, QuickMs: 20000, ThoroughRuns: 1000000000, ThoroughMs: 480000}},
 		Rule: "one evaluation = one simulated boot (real vmm.Init arms the guard) followed by a seeded history of (a) attempts to map the shared zero frame writable through every mapping entry point (Map, MapTemporary, MapRegion, IdentityMapRegion, pdt.Map on the active and on an inactive space) with every other flag mixed in, and (b) page faults raised by the harness-CPU through the handler the kernel registered for vector 14: consistent writes to copy-on-write pages over the zero frame and over ordinary frames with random contents, and arbitrary (address, error code, leaf flags, tampered upper-level entry) combinations, each with frame-allocation or temporary-mapping failure injected at each step of the handler. Return-vs-panic must match the rule; after recovery frame freshness, flags, contents, other mappings, TLB invalidation and the retried access are checked; the zero-frame invariant is checked after every step in every address space. Non-trivial = at least one recovered copy-on-write fault and one panicking fault; distinct = hash of (window pages, counts).",
 		Assume:   []string{"page contents are compared through frames; the faulting page's bytes are loaded into a host window from the mapped frame before the fault is raised (data-path stub)", "a fault whose page cannot be backed by host memory is skipped when it would be recoverable"},
 		Required: []string{"c06.cow_on_zero_frame_recovered", "c06.cow_on_ordinary_frame_recovered", "c06.failure_while_resolving_panics", "c06.other_fault_panics", "c06.upper_level_tamper_panics", "c06.gpf_panics", "c06.guard_refused.Map", "c06.guard_refused.MapTemporary", "c06.guard_refused.MapRegion", "c06.guard_refused.IdentityMapRegion", "c06.guard_refused.pdt.Map(inactive)", "c06.readonly_zero_mapping_ok"},
@@ -151,7 +151,7 @@ func init() {
 	})
 	addProp(&propSpec{
 		ID: "C13", Engine: "tree", Level: "exploration",
-		Subs: []subCheck{{Name: "C13", QuickRuns: 60000, QuickMs: 30000, ThoroughRuns: 6000000, ThoroughMs: 400000}},
+		Subs: []subCheck{{Name: "C13", QuickRuns: 1000000000, QuickMs: 20000, ThoroughRuns: 1000000000, ThoroughMs: 480000}},
 		Rule: "one evaluation = one seeded history (up to 300 operations) of create (named from a 6-name alphabet so that shadowing is frequent, or unnamed) / append / insert-after / detach / re-attach of whole subtrees / free-leaf, interleaved with well-formed lookups (absolute, parent-prefixed, single- and multi-segment, with embedded dual/multi-name prefix bytes; half of them aimed at an existing object) and malformed lookups from every live scope; after every edit every link of the real tree is compared with the reference tree and freed-slot reuse is checked; every well-formed lookup is compared with the reference resolver. Degenerate one-party history: no schedule or fault dimension exists for this code. Non-trivial = at least 5 edits and 2 lookups; distinct = hash of (final tree shape and names, lookup count).",
 		Assume:   []string{"sibling names are unique (ACPI scopes do not allow duplicates); for malformed expressions only no-crash and live-or-not-found is required", "callers of free pass leaves (the tree panics by design otherwise)"},
 		Required: []string{"c13.freed_slot_reused", "c13.insert_in_the_middle", "c13.subtree_reattached", "c13.detach_last_child", "c13.detach_first_child", "c13.found_in_enclosing_scope", "c13.parent_prefixed_single_segment_not_found", "c13.malformed_lookup"},
@@ -170,7 +170,7 @@ func init() {
 	})
 	addProp(&propSpec{
 		ID: "C14", Engine: "acpi", Level: "fault_enumeration",
-		Subs: []subCheck{{Name: "C14", QuickRuns: 40000, QuickMs: 40000, ThoroughRuns: 3000000, ThoroughMs: 500000}},
+		Subs: []subCheck{{Name: "C14", QuickRuns: 1000000000, QuickMs: 20000, ThoroughRuns: 1000000000, ThoroughMs: 480000}},
 		Rule: "one evaluation = one generated firmware image (root pointer of revision 0/1/2/3/255 at the first, last or any 16-byte slot of the search area with arbitrary bytes after it; RSDT and XSDT listing DIFFERENT table sets of 0-8 tables with random bodies of 36-5000 bytes crossing page boundaries; optional FADT with 32-bit, 64-bit or both DSDT pointers in the ACPI layout) plus a fault plan: single-byte corruption of a seeded subset of listed tables / FADT / DSDT / the root pointer, decoy root pointers with a bad checksum before and after the real one, identity-mapping failure at call k. The probe result, the selected root table, the registered signature set (must equal exactly the listed tables whose bytes sum to zero plus the DSDT of a valid FADT), the table pointers and the init log are checked. Non-trivial = at least 2 listed tables; distinct = hash of (signatures, lengths, corruption pattern, revision, pointer mode, slot).",
 		Assume:   []string{"a valid extended root pointer has both checksums valid; decoys have a bad (extended) checksum", "the length field of a table is never corrupted (reading beyond firmware memory is outside the simulation)", "output order of the table summary is not compared (Go map iteration)"},
 		Required: []string{"c14.no_valid_root_pointer", "c14.decoy_before_real_root_pointer", "c14.corrupted_table_reported_and_skipped", "c14.enumeration_continued_past_corrupted_table", "c14.map_failure_propagated", "c14.xsdt_followed", "c14.rsdt_followed", "c14.dsdt_registered_mode_1", "c14.corrupted_fadt_dsdt_not_followed", "c14.root_pointer_corrupted"},
@@ -191,14 +191,14 @@ func init() {
 	})
 	addProp(&propSpec{
 		ID: "C17", Engine: "tty", Level: "exploration",
-		Subs: []subCheck{{Name: "C17", QuickRuns: 40000, QuickMs: 40000, ThoroughRuns: 4000000, ThoroughMs: 500000}},
+		Subs: []subCheck{{Name: "C17", QuickRuns: 1000000000, QuickMs: 20000, ThoroughRuns: 1000000000, ThoroughMs: 480000}},
 		Rule: "one evaluation = one seeded history (up to 120 operations from 1-4 writers: Write of chunks biased toward \\n \\r \\b \\t, printable runs long enough to wrap, bursts of line feeds that exhaust the scrollback, arbitrary bytes; WriteByte; SetCursorPosition with arbitrary 32-bit values; SetState) on a terminal attached to a reference console of geometry 1..132 x 1..50 (1xN, Nx1, 1x1 included), scrollback 0..100, tab width 0..8; after every operation the cursor, the WHOLE terminal buffer (scrollback included) and the viewport origin are compared with a reference terminal written from the statement; a panic (index outside the buffer) is a violation. Non-trivial = at least 5 operations with at least one wrap, viewport advance or scroll; distinct = hash of (geometry, final buffer sample, cursor).",
 		Assume:   []string{"colours are always the console's defaults (the terminal has no API to change them)"},
 		Required: []string{"tty.three_wraps", "tty.viewport_advanced_through_scrollback", "tty.buffer_scrolled", "tty.buffer_scrolled_with_scrollback", "tty.one_column_or_one_row", "tty.activation"},
 	})
 	addProp(&propSpec{
 		ID: "C18", Engine: "tty", Level: "exploration",
-		Subs: []subCheck{{Name: "C18", QuickRuns: 12000, QuickMs: 45000, ThoroughRuns: 1200000, ThoroughMs: 600000}},
+		Subs: []subCheck{{Name: "C18", QuickRuns: 1000000000, QuickMs: 20000, ThoroughRuns: 1000000000, ThoroughMs: 480000}},
 		Rule: "one evaluation = one seeded history as in C17 with activate/deactivate interleaved, on one of three consoles: the reference cell grid, the real text-mode console (any size) or the real framebuffer console (depth 8/15/16/24/32, seeded pitch >= row bytes, two colour-mask layouts, each shipped font, logo present or absent, leftover right columns and bottom rows). While active, after every operation every console cell must equal the reference viewport cell (text cells decoded; framebuffer cells compared pixel by pixel with an independent glyph/colour renderer) and every byte outside the cell grid must keep the value it had when the terminal was attached; while inactive the console memory must be byte-identical to what it was at deactivation; activation must re-establish equality. Non-trivial / distinct as in C17 (hash includes console kind and depth).",
 		Assume:   []string{"everything outside the grid except the logo is initialised to one uniform value: the real scroll moves whole rows including padding and leftover columns, moving equal bytes is invisible; whether it should touch them is C19's question, which is not claimed", "only the in-range calls a terminal makes are exercised on the real consoles"},
 		Required: []string{"tty.console_kind_0", "tty.console_kind_1", "tty.console_kind_2", "tty.fb_8bpp", "tty.fb_15bpp", "tty.fb_16bpp", "tty.fb_24bpp", "tty.fb_32bpp", "tty.fb_with_logo", "tty.activation_after_writes_while_inactive", "tty.buffer_scrolled", "tty.viewport_advanced_through_scrollback"},
@@ -220,7 +220,7 @@ func init() {
 	})
 	addProp(&propSpec{
 		ID: "C16", Engine: "hal", Level: "exploration",
-		Subs: []subCheck{{Name: "C16", QuickRuns: 30000, QuickMs: 40000, ThoroughRuns: 3000000, ThoroughMs: 500000}},
+		Subs: []subCheck{{Name: "C16", QuickRuns: 1000000000, QuickMs: 20000, ThoroughRuns: 1000000000, ThoroughMs: 480000}},
 		Rule: "one evaluation = one simulated bring-up: 1-10 mock drivers with seeded detection orders (duplicates included) registered in a seeded permutation, a seeded subset absent (probe_absent) or failing to initialise (init_fail, unique error message), 0-3 consoles and 0-3 terminals at seeded positions so that either kind can come first; 0-5000 bytes of kernel log in seeded chunks before detection (ring_overflow when above capacity), tokens logged by drivers during initialisation, more log afterwards. Checked: probe calls in non-decreasing detection order, each driver probed/initialised once, failing drivers reported and never active, first console and first terminal win, terminal attached once to that console, active, kfmt's sink, console == terminal viewport; the terminal's received byte stream must start with exactly the unread ring content at the moment of attachment, every later token exactly once and in order, early tokens present form a suffix of the emission order and are missing only when the ring was full. Non-trivial = at least 3 drivers and a console/terminal pair came up; distinct = hash of (driver population, permutation, pre-boot log size).",
 		Assume:   []string{"ties in detection order may be probed in any order (the statement says non-decreasing)", "wording of the HAL's own messages is not compared; delivery is checked on tokens"},
 		Required: []string{"c16.terminal_first", "c16.console_first", "c16.ring_dropped_oldest", "c16.whole_early_log_delivered", "c16.init_failure_reported", "c16.no_terminal_pair"},
